@@ -60,6 +60,9 @@ def balanced_variant(draw, max_heavy=40):
 def judge(case, rows, stats, res):
     direction = case.get("direction", "both")
     for i, (inp, row) in enumerate(zip(case["reactions"], rows)):
+        if not pp.valid_input(inp):
+            res.tag("malformed-sibling-row")
+            continue
         pp.c04_row(res, i, inp, row, direction)
         b = oracle.balanced(inp)
         res.tag("input-oracle-balanced" if b else "input-oracle-unbalanced")
